@@ -83,3 +83,39 @@ package kv
 //@ requires p.db != nil
 //@ ensures err == nil ==> dbHas(p.db, returnedKey) && !slashLt(key, returnedKey) && forall k string :: dbHas(p.db, k) && !slashLt(key, k) ==> !slashLt(returnedKey, k)
 //@ modifies nothing
+
+// ---------------------------------------------------------------- sequence keys (C13, C16)
+
+//@ func WriteBatch.FindLower(recv, key) (lowerKey, err)
+//@ trusted
+//@ modifies nothing
+//@ ensures !errIs(err, ErrMissingSequenceDeltas) && !errIs(err, ErrMissingPartitionKey) && !errIs(err, ErrSequenceDeltaIsZero) && !errIs(err, ErrBadVersionId)
+//@ note the storage layer does not produce request-validation errors
+
+// C13: whether a logged put can be applied must not depend on the content of the
+// request: these functions may fail with an infrastructure error only (storage,
+// parsing what is stored), never with one of the request-validation errors.
+// C16: the new suffix is the highest existing suffix plus the delta, computed exactly
+// (no wrap-around in uint64).
+//
+//@ func findCurrentLastKeyInSequence(wb, req) (parts, err)
+//@ property C13 C16
+//@ requires wb != nil && req != nil
+//@ ensures err == nil ==> len(parts) <= len(req.SequenceKeyDelta)
+//@ ensures !errIs(err, ErrMissingSequenceDeltas)
+//@ ensures !errIs(err, ErrMissingPartitionKey) && !errIs(err, ErrSequenceDeltaIsZero)
+//@ modifies nothing
+
+//@ func generateUniqueKeyFromSequences(batch, req) (newKey, err)
+//@ property C13 C16
+//@ requires batch != nil && req != nil
+//@ loop 0 modifies fresh, cells(uint64), cells(int64), cells(int)
+//@ loop 0 invariant rangeindex >= 0 ==> req.SequenceKeyDelta[0] > 0
+//@ assert at call Sprintf#0: lastValue + delta <= 18446744073709551615
+//@ assume at call Sscanf#0: !errIs(err, ErrMissingSequenceDeltas) && !errIs(err, ErrMissingPartitionKey) && !errIs(err, ErrSequenceDeltaIsZero) because "fmt.Sscanf returns its own parse errors, never a sentinel of this package"
+//@ ensures err == nil ==> req.PartitionKey != nil && req.ExpectedVersionId == nil
+//@ ensures err == nil && len(req.SequenceKeyDelta) > 0 ==> req.SequenceKeyDelta[0] > 0
+//@ ensures !errIs(err, ErrMissingPartitionKey)
+//@ ensures !errIs(err, ErrSequenceDeltaIsZero)
+//@ ensures !errIs(err, ErrMissingSequenceDeltas)
+//@ modifies cells(uint64), cells(int64), cells(int)
